@@ -89,6 +89,20 @@ def sc_piecewise(cfg):
             else:
                 purity(C, est.predict, Xq, "PiecewiseRegressor.predict")
             purity(C, est.transform_bins, Xq, "transform_bins", subsets=False)
+            # the same rows at the two ends of a 600-row batch (filler rows cycle through the buckets)
+            if clf:
+                return  # the routing code is shared: the large batch is run with the regressor only
+            N = 600
+            big = numpy.empty((N, 2), dtype=object)
+            for r in range(N):
+                big[r, 0], big[r, 1] = float(r % 7), r % (nb + 1)
+            big[0], big[N - 1] = Xq[0], Xq[1]
+            bins_big = est.transform_bins(big)
+            bins_one = [est.transform_bins(Xq[i : i + 1])[0] for i in range(2)]
+            _cell_eq(C, bins_big[0], bins_one[0], "transform_bins/row-in-a-600-row-batch==row-alone", detail=0)
+            _cell_eq(C, bins_big[N - 1], bins_one[1], "transform_bins/row-in-a-600-row-batch==row-alone", detail=N - 1)
+            for r in (1, 255, 256, 257, 511, 512, N - 2):
+                _cell_eq(C, bins_big[r], est.transform_bins(big[r : r + 1])[0], "transform_bins/row-in-a-600-row-batch==row-alone", detail=r)
 
     return scenario
 
@@ -125,7 +139,7 @@ def sc_kml1(cfg):
         Xq = sx.cur().reals("q", 3, 1) if C.symbolic else numpy.array([[float(C.inputs.get(f"q_{i}_0", 1.0 + 1.5 * i))] for i in range(3)])
         stubs = dict(check_is_fitted=lambda s: None)
         if C.symbolic:
-            stubs.update(pairwise_distances_argmin_min=c06.manhattan_argmin_min, manhattan_distances=c06.manhattan_matrix)
+            stubs.update(pairwise_distances_argmin_min=c06.manhattan_argmin_min, manhattan_distances=c06.manhattan_matrix, numpy=sx.TypedNumpy())
             est._check_test_data = lambda Xa: Xa
         else:
             est._n_threads = 1
@@ -133,6 +147,15 @@ def sc_kml1(cfg):
         with harness.patched(km, **stubs):
             purity(C, est.predict, Xq, "KMeansL1L2.predict(L1)")
             purity(C, est.transform, Xq, "KMeansL1L2.transform(L1)")
+            # the same rows inside a larger batch (an implementation may treat small and large batches differently)
+            filler = numpy.array([[float(i)] for i in range(-4, 6)], dtype=object if C.symbolic else float)
+            big = numpy.vstack([Xq[:2], filler])
+            if C.symbolic:
+                big = big.view(sx.SArr)
+            lab_big = est.predict(big)
+            for i in range(2):
+                one = est.predict(Xq[i : i + 1])
+                _cell_eq(C, lab_big[i], one[0], "KMeansL1L2.predict(L1)/row-in-a-12-row-batch==row-alone", detail=i)
 
     return scenario
 
